@@ -68,6 +68,7 @@ type transcript struct {
 	s     string
 	panic bool
 	isErr bool
+	bad   string // first probe event whose "=<canon>" tag disagrees with its payload
 }
 
 func loadOnce(rt *vcommon.Rt, p lisp.Program) transcript {
@@ -87,10 +88,18 @@ func loadOnce(rt *vcommon.Rt, p lisp.Program) transcript {
 	b.WriteString("\nstderr: ")
 	b.WriteString(rt.Stderr.String())
 	b.WriteString("\ntrace:\n")
+	bad := ""
 	for _, e := range rt.Trace {
 		fmt.Fprintf(&b, "%s|%s|@%d\n", e.Tag, e.Payload, e.Steps)
+		// a tag of the form "=<canon>" states the value the generator's
+		// model gives the probed expression (a template / quoted literal)
+		if bad == "" && strings.HasPrefix(e.Tag, "\"=") && strings.HasSuffix(e.Tag, "\"") {
+			if want := e.Tag[2 : len(e.Tag)-1]; e.Payload != want {
+				bad = fmt.Sprintf("a literal that the model says is %s was observed as %s", want, e.Payload)
+			}
+		}
 	}
-	return transcript{s: b.String(), panic: o.Panic, isErr: o.IsErr}
+	return transcript{s: b.String(), panic: o.Panic, isErr: o.IsErr, bad: bad}
 }
 
 func firstDiff(a, b string) string {
@@ -255,9 +264,12 @@ func checkLoads(c Case, ctx *vcommon.Ctx) *vcommon.Failure {
 		}
 		return vcommon.Failf(key, format, a...)
 	}
-	for _, t := range ref {
+	for i, t := range ref {
 		if t.panic {
 			return vcommon.Failf("internal-panic/"+fam, "a load raised an internal panic:\n%s\nprogram:\n%s", t.s, c.Src)
+		}
+		if t.bad != "" {
+			return vcommon.Failf("literal/re-evaluated/fresh-parse/"+fam, "load %d of a fresh parse: %s\nprelude:\n%s\nprogram:\n%s", i+1, t.bad, c.prelude(0), c.Src)
 		}
 	}
 	if ref[0].isErr {
@@ -267,6 +279,9 @@ func checkLoads(c Case, ctx *vcommon.Ctx) *vcommon.Failure {
 	}
 	if strings.Contains(ref[0].s, "\"err\"|") {
 		ctx.Class("outcome/handled-error-inside")
+	}
+	if strings.Contains(ref[0].s, "\n\"=") {
+		ctx.Class("outcome/model-stated-literal-probed")
 	}
 	if nerr, nok := strings.Count(ref[0].s, "\n\"err\"|"), strings.Count(ref[0].s, "\n\"p"); nok > nerr {
 		ctx.Class("outcome/more-probes-than-errors")
@@ -279,6 +294,9 @@ func checkLoads(c Case, ctx *vcommon.Ctx) *vcommon.Failure {
 	}
 	for i := 0; i < c.K; i++ {
 		got := loadOnce(rt, p)
+		if got.bad != "" {
+			return vcommon.Failf("literal/re-evaluated/same-program/"+fam, "load %d of the same Program in one runtime: %s\nprelude:\n%s\nprogram:\n%s", i+1, got.bad, c.prelude(0), c.Src)
+		}
 		if fp := fingerprint(p); fp != fp0 {
 			return vcommon.Failf("fingerprint/same-runtime/"+fam, "sealed fingerprint changed from %x to %x by load %d of %d in one runtime\nprogram:\n%s", fp0, fp, i+1, c.K, c.Src)
 		}
@@ -485,6 +503,9 @@ func checkConcurrent(c Case, ctx *vcommon.Ctx) *vcommon.Failure {
 		}
 		v := g % nv
 		for i := 0; i < K; i++ {
+			if got[g][i].bad != "" {
+				return vcommon.Failf("literal/re-evaluated/concurrent/"+fam, "goroutine %d load %d: %s\nprelude:\n%s\nprogram:\n%s", g, i+1, got[g][i].bad, c.Preludes[v], c.Src)
+			}
 			if got[g][i].s != refs[v][i].s {
 				if again, f := referenceSame(c, v); f != nil || !sameTranscripts(again, refs[v]) {
 					ctx.Class("skip/nondeterministic-reference")
@@ -567,6 +588,7 @@ func genLiteral() *rapid.Generator[LitCase] {
 		n := g.length()
 		lit := litValOfKind(g, k, n)
 		g.lits = []vx{{"(lit)", "list", k, n, "litfn"}}
+		g.mlit = "(mlit)"
 		// x is bound to the first value obtained from the literal
 		g.srcs = []vx{{"x", "list", k, n, "litfn"}}
 		ns := g.n(1, 5, "nsteps")
@@ -589,15 +611,18 @@ func genLiteral() *rapid.Generator[LitCase] {
 
 func (c LitCase) defSrc() string {
 	body := gen.Render(c.Lit)
+	// (mlit): a macro, defined by this EARLIER load, whose quasiquote template
+	// is the same literal; every evaluation of a call site must expand afresh
+	mlit := "(defmacro mlit () (quasiquote (quote " + body + ")))\n"
 	switch c.Shape {
 	case 0:
-		return "(defun lit () '" + body + ")\n"
+		return "(defun lit () '" + body + ")\n" + mlit
 	case 1:
-		return "(defun lit () (quote " + body + "))\n"
+		return "(defun lit () (quote " + body + "))\n" + mlit
 	case 2:
-		return "(set 'lit (lambda () '" + body + "))\n"
+		return "(set 'lit (lambda () '" + body + "))\n" + mlit
 	}
-	return "(defun lit (&optional o) (if o o '" + body + "))\n"
+	return "(defun lit (&optional o) (if o o '" + body + "))\n" + mlit
 }
 
 func checkLiteral(c LitCase, ctx *vcommon.Ctx) *vcommon.Failure {
